@@ -19,6 +19,7 @@ import Hpv.Obo
 import Hpv.Hpoa
 import Hpv.Store
 import Hpv.Tags
+import Hpv.StoreTrace
 open Lean
 
 namespace Drv
@@ -695,6 +696,34 @@ def storeTags (j : Json) : Except String Json := do
   return Json.mkObj [("prod", toJson (names.map Hpv.Tags.prodTag)),
     ("latest", match Hpv.Tags.latest names with | none => Json.null | some r => toJson r)]
 
+/-- an observed trace of file-system primitives -> is it disciplined, and where does it stop being so.
+remote: [[key, bytes]]; ops: ["create", path] | ["append", path, bytes] | ["rename", src, dst] | ["remove", path] | ["noop"];
+a path is ["cache", k] or ["other", p] -/
+def storeTrace (j : Json) : Except String Json := do
+  let remoteL ← j.getObjValAs? (List (Nat × List Nat)) "remote"
+  let remote : Nat → Option Hpv.StoreTrace.Bytes := fun k => (remoteL.find? (fun p => p.1 = k)).map (·.2)
+  let pathOf (x : Json) : Except String Hpv.StoreTrace.Path := do
+    let a ← x.getArr?
+    let n ← (a[1]?.getD Json.null).getNat?
+    match ← (a[0]?.getD Json.null).getStr? with
+    | "cache" => return .cache n
+    | "other" => return .other n
+    | s => throw s!"bad path kind {s}"
+  let ops ← (← j.getObjValAs? (List Json) "ops").mapM fun o => do
+    let a ← o.getArr?
+    match ← (a[0]?.getD Json.null).getStr? with
+    | "create" => return Hpv.StoreTrace.Op.create (← pathOf (a[1]?.getD Json.null))
+    | "append" => return .append (← pathOf (a[1]?.getD Json.null)) (← fromJson? (α := List Nat) (a[2]?.getD Json.null))
+    | "rename" => return .rename (← pathOf (a[1]?.getD Json.null)) (← pathOf (a[2]?.getD Json.null))
+    | "remove" => return .remove (← pathOf (a[1]?.getD Json.null))
+    | "noop" => return .noop
+    | s => throw s!"bad trace op {s}"
+  let bad := Hpv.StoreTrace.firstBad remote Hpv.StoreTrace.emptyFS ops 0
+  let fs := Hpv.StoreTrace.run Hpv.StoreTrace.emptyFS ops
+  let cached : List Nat := remoteL.filterMap fun p => if (fs (.cache p.1)).isSome then some p.1 else none
+  return Json.mkObj [("disciplined", Hpv.StoreTrace.Disciplined remote Hpv.StoreTrace.emptyFS ops),
+    ("first_bad", match bad with | none => Json.null | some i => toJson i), ("cached", toJson cached)]
+
 def storeRun (j : Json) : Except String Json := do
   -- remote: [[ty, rel, bytes]], tags: [[ty, [rels]]], ops
   let remoteL ← (← j.getObjValAs? (List Json) "remote").mapM fun r => do
@@ -766,6 +795,7 @@ def handle (j : Json) : Except String Json := do
   | "sim.hist" => simHist j
   | "store.run" => storeRun j
   | "store.tags" => storeTags j
+  | "store.trace" => storeTrace j
   | "hpoa.load" => hpoaLoad j
   | "obo.load" => oboLoad j
   | "obo.recognise" => oboRecognise j
